@@ -627,6 +627,13 @@ def streams(tier, rng):
             seen_cl.add(c)
             e2e_cases.append(c)
 
+    # ---- e2erun: which declared value each argument row receives under --test ----
+    e2erun_cases = [f"{a} {r} {b}" for b in ("lossy", "strs") for a in ATTRS for r in (0, 1)]
+
+    def e2erun_model_input(c, i):
+        k = i.find(" | names:")
+        return c + " " + i[k + 9:] if k >= 0 else c + " %0"
+
     def e2e_model_input(c, i):
         k = i.find(" => ")
         return c + " " + i[:k] if k >= 0 else c
@@ -642,6 +649,11 @@ def streams(tier, rng):
         Stream("arg-comparator-recorded-f64", "wcmp", wcmp_cases, compare=same_result, model_input=with_table, nontrivial=nt_cmp, hist=hist_w),
         Stream("arg-sort-recorded-f64", "wsort", wsort_cases, compare=same_result, model_input=with_table, nontrivial=nt_sort, hist=hist_w),
         Stream("tree-sibling-order", "tree", tree_cases, nontrivial=nt_tree, hist=hist_tree),
+        Stream("end-to-end-argument-identity", "e2erun", e2erun_cases, compare=same_result, model_input=e2erun_model_input,
+               nontrivial=nt_sort,
+               describe="hx-sort-e2e recv::lossy (values whose Display is lossy: three print 1KB) and recv::strs (equal Strings in "
+                        "separate slots) run by Divan::main() --test --sort/--sortr <attr>; the bodies report the value received; "
+                        "checked as a sort of the labels: every declared argument exactly once, in the specified order"),
         Stream("end-to-end-listing", "e2e", e2e_cases, compare=e2e_compare, model_input=e2e_model_input,
                describe="hx-sort-e2e: #[divan::bench]/#[divan::bench_group] items (renamed groups, generic types not in token "
                         "order, signed consts, types x consts, args) listed by Divan::main() --list --sort/--sortr <attr>; also "
